@@ -3,6 +3,8 @@
    [exact] of a lemma proved in TypesMoreP and followed by Print Assumptions. Models: TypesMore.v (as coded:
    src/plugins_types/enumeration.c bits.c binary.c string.c union.c, ly_utf8len). The Spec definitions (enum_wf,
    bits_wf, tokens, rfc4648_canonical = b64_encode, utf8_chars, ...) are in TypesMore.v. Values are NUL-free texts.
+   The binary model follows /repo commit c0ee3aa (canonical string re-encoded when the unused bits are not zero), the
+   UTF-8 check /repo commit d2cc93f (noncharacters refused).
    Not covered here: patterns (C18), LYB encoding of these types, identityref / leafref / instance-identifier and
    the derived inet / yang types (searched by the SourceIndep oracle only). *)
 From LY Require Import Base TypesMisc TypesMiscP IntLex IntLexP Utf8 TypesMore TypesMoreP.
@@ -143,28 +145,35 @@ Theorem C03_binary_length_counts_octets :
 Proof. exact binary_length_counts_octets. Qed.
 Print Assumptions C03_binary_length_counts_octets.
 
-(* canonicalisation is idempotent: the kept canonical string is accepted and gives the same value *)
+(* canonicalisation is idempotent: the canonical string is accepted and gives the same value *)
 Theorem C03_binary_canon_idempotent :
   forall parts s v, binary_store parts s = Ok v -> binary_store parts (binary_canon v) = Ok v.
 Proof. exact binary_canon_idempotent. Qed.
 Print Assumptions C03_binary_canon_idempotent.
 
-(* among RFC 4648 texts: equal octets exactly when equal canonical strings *)
-Theorem C03_binary_eq_iff_canon_rfc4648 :
-  forall d1 d2, bytes_ok d1 = true -> bytes_ok d2 = true ->
-    (binary_compare (d1, b64_encode d1) (d2, b64_encode d2) = true <-> b64_encode d1 = b64_encode d2).
-Proof. exact binary_eq_iff_canon_rfc. Qed.
-Print Assumptions C03_binary_eq_iff_canon_rfc4648.
+(* the canonical string of every stored value is the RFC 4648 section 4 text of its octets: padded, zero unused
+   bits, no line feeds - whatever accepted text was stored (since /repo commit c0ee3aa) *)
+Theorem C03_binary_canon_is_rfc4648 :
+  forall parts s v, binary_store parts s = Ok v -> binary_canon v = b64_encode (fst v) /\ bytes_ok (fst v) = true.
+Proof. intros parts s v H. split; [exact (binary_canon_is_rfc4648 parts s v H)|exact (binary_store_ok parts s v H)]. Qed.
+Print Assumptions C03_binary_canon_is_rfc4648.
 
-(* FINDING (binary-pad-bits): for all accepted texts the statement is false. YQ== and YR== (unused bits not zero)
-   are both accepted, store the same octet 0x61 and compare equal, but keep different canonical strings; the
-   canonical string of YR== is not the RFC 4648 text of its octets *)
-Theorem C03_binary_eq_iff_canon_refuted :
-  exists a b, binary_store [] [89; 81; 61; 61] = Ok a /\ binary_store [] [89; 82; 61; 61] = Ok b /\
-              binary_compare a b = true /\ binary_canon a <> binary_canon b /\
-              binary_canon b <> b64_encode (fst b).
-Proof. exact binary_eq_iff_canon_refuted. Qed.
-Print Assumptions C03_binary_eq_iff_canon_refuted.
+(* two stored values are equal (same octets) exactly when their canonical strings are equal (full strength since
+   /repo commit c0ee3aa; before, YQ== and YR== were a counter-example) *)
+Theorem C03_binary_eq_iff_canon :
+  forall parts s1 s2 a b, binary_store parts s1 = Ok a -> binary_store parts s2 = Ok b ->
+    (binary_compare a b = true <-> binary_canon a = binary_canon b).
+Proof. exact binary_eq_iff_canon. Qed.
+Print Assumptions C03_binary_eq_iff_canon.
+
+(* regression of the former finding binary-pad-bits: YR== and YWJ= (unused bits not zero) are accepted and get the
+   canonical strings YQ== and YWI= *)
+Theorem C03_binary_pad_bits_regression :
+  binary_store [] [89; 82; 61; 61] = Ok ([97], [89; 81; 61; 61]) /\
+  binary_store [] [89; 81; 61; 61] = Ok ([97], [89; 81; 61; 61]) /\
+  binary_store [] [89; 87; 74; 61] = Ok ([97; 98], [89; 87; 73; 61]).
+Proof. exact binary_pad_bits_regression. Qed.
+Print Assumptions C03_binary_pad_bits_regression.
 
 (* the sort callback (size, then memcmp) is a strict total order whose equality is the compare callback *)
 Theorem C03_binary_sort_total_order :
